@@ -15,7 +15,7 @@ theorem mac_mac3 (k1 k2 d : Bytes) (pm : Int) (l : Option Nat) : Gen.mac.mac_iso
     | ok p =>
       simp only []
       repeat (first | rfl | split)
-      all_goals simp_all
+      all_goals first | (simp_all; done) | slice_forms
   · by_cases h2 : pm = 2
     · subst h2
       simp only [show ¬ ((2 : Int) = 1) by decide, if_false, if_true]
@@ -24,7 +24,7 @@ theorem mac_mac3 (k1 k2 d : Bytes) (pm : Int) (l : Option Nat) : Gen.mac.mac_iso
       | ok p =>
         simp only []
         repeat (first | rfl | split)
-        all_goals simp_all
+        all_goals first | (simp_all; done) | slice_forms
     · simp [h1, h2, throw, throwThe, MonadExceptOf.throw]
 
 end Pyemv.ModRefines
